@@ -211,7 +211,7 @@ Theorem make_decode : forall (o : opc) (z : Z) (rest : list N),
              decode1 (bs ++ rest) = Some ({| iop := N_of_opc o; iargs := [Z.to_N z]; ilen := 3 |}, rest).
 Proof.
   intros o z rest HO Hz. unfold make. rewrite lookup_def_opc, HO. cbn [make_operands option_map].
-  change (2 =? 2) with true. cbv iota.
+  change (2 =? 2) with true. assert (HF : fits16 z = true) by (unfold fits16; lia). rewrite HF. cbn [andb negb]. cbv iota.
   destruct (put16_read z Hz) as (hi & lo & -> & E).
   eexists. split; [reflexivity|]. cbn [app]. unfold decode1. rewrite lookup_def_opc, HO.
   cbn [read_operands]. change (N.to_nat 2) with 2%nat. cbn [take_bytes]. change (2 =? 2) with true. cbv iota.
@@ -224,4 +224,18 @@ Theorem make_decode_noarg : forall (o : opc) (rest : list N),
   decode1 (N_of_opc o :: rest) = Some ({| iop := N_of_opc o; iargs := []; ilen := 1 |}, rest).
 Proof.
   intros o rest HO. unfold make, decode1. rewrite lookup_def_opc, HO. split; reflexivity.
+Qed.
+
+(* Make rejects an operand that does not fit 16 bits (code.go after e351c68) *)
+Theorem make_rejects_out_of_range : forall (o : opc) (z : Z),
+  has_operand o = true -> (z < 0 \/ 65535 < z)%Z -> make (N_of_opc o) [z] = None.
+Proof.
+  intros o z HO Hz. unfold make. rewrite lookup_def_opc, HO. cbn [make_operands].
+  change (2 =? 2) with true. assert (HF : fits16 z = false) by (unfold fits16; lia). rewrite HF. reflexivity.
+Qed.
+
+Lemma make_some_range o z bs : has_operand o = true -> make (N_of_opc o) [z] = Some bs -> (0 <= z < 65536)%Z.
+Proof.
+  intros HO H. destruct (Z_lt_dec z 0) as [L|L]; [rewrite make_rejects_out_of_range in H by auto; discriminate|].
+  destruct (Z_lt_dec 65535 z) as [G|G]; [rewrite make_rejects_out_of_range in H by auto; discriminate|]. lia.
 Qed.
